@@ -174,6 +174,15 @@ theorem obs_ok [DecidableEq ν] {d : CIDict κ ν} {m : SMap κ ν} (h : Sim low
   · rw [asDict_abs lower]; exact sameSet_of_perm (hc.map _)
   · exact sameSet_of_perm ((cmap_perm lower h.inv).trans (hc.map _))
 
+/-- The inherited `Mapping` API needs no separate argument: `items()` (hence `keys()`, `values()`,
+    and `get`, which is `__getitem__` with a default) lists exactly the (spelling, value) pairs of
+    `as_dict()`, which `obs_ok` relates to the abstract map; the derived mutators `pop`, `popitem`,
+    `setdefault`, `update`, `clear` are sequences of `__getitem__`/`__setitem__`/`__delitem__`, i.e.
+    histories covered by `c16_history`. -/
+theorem mixin_items_spec {d : CIDict κ ν} {m : SMap κ ν} (h : Sim lower d m) :
+    mixinItems lower d = asDict d :=
+  mixinItems_eq_data lower h.inv
+
 /-- hence: after **any** operation sequence the judge accepts the model's observation of every register -/
 theorem c16_judge_accepts_model [DecidableEq ν] (ops : List (Op κ ν)) (hw : ∀ op ∈ ops, WF lower op)
     (probes : List κ) (r : Nat) :
